@@ -271,7 +271,18 @@ func (g *Gen) Hostile() (kind string, body []byte) {
 	r := g.R
 	q := g.Valid()
 	valid := JSONBytes(q.Body)
-	switch r.Intn(17) {
+	switch r.Intn(22) {
+	case 17, 18, 19, 20, 21:
+		// well-formed JSON, 1-3 random structural edits anywhere in the request tree: keys removed,
+		// unexpected keys added, array elements dropped / duplicated, values replaced by values
+		// (of any type) found elsewhere in the request
+		b := CloneJ(q.Body).(map[string]interface{})
+		n := r.Range(1, 3)
+		var names []string
+		for i := 0; i < n; i++ {
+			names = append(names, mutateTree(r, b))
+		}
+		return "tree-edit:" + strings.Join(names, "+"), JSONBytes(b)
 	case 14, 15, 16:
 		// well-formed request, one numeric parameter replaced by an unusual value
 		b := CloneJ(q.Body).(map[string]interface{})
@@ -375,5 +386,119 @@ func collectNumericLeaves(v interface{}, out *[]leafRef) {
 				collectNumericLeaves(x[i], out)
 			}
 		}
+	}
+}
+
+type treeNode struct {
+	obj map[string]interface{}
+	arr []interface{}
+	// how to store a replacement for this node in its parent
+	set func(v interface{})
+	path string
+}
+
+func collectNodes(v interface{}, path string, set func(interface{}), nodes *[]treeNode, keys *[]string, vals *[]interface{}) {
+	switch x := v.(type) {
+	case map[string]interface{}:
+		*nodes = append(*nodes, treeNode{obj: x, set: set, path: path})
+		for _, k := range sortedKeys(x) {
+			k := k
+			*keys = append(*keys, k)
+			*vals = append(*vals, x[k])
+			collectNodes(x[k], path+"."+k, func(nv interface{}) { x[k] = nv }, nodes, keys, vals)
+		}
+	case []interface{}:
+		*nodes = append(*nodes, treeNode{arr: x, set: set, path: path})
+		for i := range x {
+			i := i
+			*vals = append(*vals, x[i])
+			collectNodes(x[i], path+"[]", func(nv interface{}) { x[i] = nv }, nodes, keys, vals)
+		}
+	default:
+		*nodes = append(*nodes, treeNode{set: set, path: path})
+	}
+}
+
+// mutateTree applies one random structural edit to the JSON tree root and
+// returns a short name for it. All choices are drawn from r over
+// deterministically ordered candidates.
+func mutateTree(r *Rand, root map[string]interface{}) string {
+	var nodes []treeNode
+	var keys []string
+	var vals []interface{}
+	collectNodes(root, "", func(interface{}) {}, &nodes, &keys, &vals)
+	if len(nodes) == 0 {
+		return "none"
+	}
+	nd := nodes[r.Intn(len(nodes))]
+	pool := func() interface{} {
+		if len(vals) == 0 || r.Bool(0.25) {
+			return []interface{}{nil, true, "x", 0.0, -1.0, 1e9, J{}, []interface{}{}}[r.Intn(8)]
+		}
+		return CloneJ(vals[r.Intn(len(vals))])
+	}
+	short := nd.path
+	if len(short) > 40 {
+		short = short[len(short)-40:]
+	}
+	switch {
+	case nd.obj != nil:
+		ks := sortedKeys(nd.obj)
+		switch r.Intn(4) {
+		case 0:
+			if len(ks) > 0 {
+				k := ks[r.Intn(len(ks))]
+				delete(nd.obj, k)
+				return "del(" + short + "." + k + ")"
+			}
+		case 1:
+			if len(ks) > 0 && len(keys) > 0 {
+				k := ks[r.Intn(len(ks))]
+				nk := keys[r.Intn(len(keys))]
+				nd.obj[nk] = nd.obj[k]
+				if nk != k {
+					delete(nd.obj, k)
+				}
+				return "rename(" + short + "." + k + "->" + nk + ")"
+			}
+		}
+		nk := "extra"
+		if len(keys) > 0 && r.Bool(0.7) {
+			nk = keys[r.Intn(len(keys))]
+		}
+		if _, exists := nd.obj[nk]; exists {
+			nk = nk + "X"
+		}
+		if len(ks) > 0 && r.Bool(0.6) {
+			// a sibling-typed value: the most plausible unexpected extra entry
+			nd.obj[nk] = CloneJ(nd.obj[ks[r.Intn(len(ks))]])
+		} else {
+			nd.obj[nk] = pool()
+		}
+		return "add(" + short + "." + nk + ")"
+	case nd.arr != nil:
+		a := nd.arr
+		switch r.Intn(4) {
+		case 0:
+			if len(a) > 0 {
+				i := r.Intn(len(a))
+				nd.set(append(append([]interface{}{}, a[:i]...), a[i+1:]...))
+				return "drop(" + short + "[])"
+			}
+		case 1:
+			if len(a) > 0 {
+				i := r.Intn(len(a))
+				nd.set(append(append([]interface{}{}, a...), CloneJ(a[i])))
+				return "dup(" + short + "[])"
+			}
+		case 2:
+			nd.set([]interface{}{})
+			return "clear(" + short + ")"
+		}
+		nd.set(append(append([]interface{}{}, a...), pool()))
+		return "append(" + short + "[])"
+	default:
+		nd.set(pool())
+		return "replace(" + short + ")"
 	}
 }
